@@ -56,6 +56,8 @@ def turn_class(lab, nxt):
         return 5                                       # getter exit
     if lab == "ReadLoop":
         return 6 if nxt == "ReadLoop" else None        # one read step
+    if lab == "Return":
+        return 7                                       # the call runs to its end (up to the goroutine's next getter entry)
     return None
 
 
@@ -97,6 +99,18 @@ def generate_schedules(work, count):
                 order.append(cand[v].pop(0))
         k += 1
     return order, stats
+
+
+def gate_ids(sites):
+    """the two getters are required for schedule replay, the builder literals are optional (a restructured construction
+    has none: the first function entries inside the getter are the build steps then)"""
+    g = {}
+    for s in sites.values():
+        if s["kind"] == "func" and s["func"] in ("basepointTable", "basepointNafTable"):
+            g.setdefault("getters", []).append(s["id"])
+        if s["kind"] == "funclit" and s["func"] in ("basepointTable.func", "basepointNafTable.func"):
+            g.setdefault("builders", []).append(s["id"])
+    return g if len(g.get("getters", [])) == 2 else None
 
 
 def run_scenario(driver, scn, work, tag, gomaxprocs, race=False, chaos=0):
@@ -185,7 +199,10 @@ def check(tier):
                     pass
             # spec -> code: behaviours of OnceSched (sync.Once and its deviations) replayed as schedules into gated goroutines
             # of cold processes; the traces and the entry/exit log they produce are validated like those above
-            if ids:
+            gids = gate_ids(sites)
+            if not gids:
+                gate_info["generated"] = "getter functions not found (refactored names): schedule replay skipped"
+            if gids:
                 scheds, sched_stats = generate_schedules(work, 9 if tier == "quick" else 60)
                 gate_info["generated"] = sched_stats
 
@@ -194,8 +211,8 @@ def check(tier):
                     srng = random.Random(vlib.seed() * 7919 + 1800 + k)
                     scn = suites.conc_scenario(2000 + 2 * k, srng, len(sc["use"]), first_ops=[{"A": "base", "B": "naf", "-": None}[u] for u in sc["use"]])
                     scn["schedule"] = sc["turns"]
-                    scn["gate_getters"] = [ids["getterA"], ids["getterB"]]
-                    scn["gate_builders"] = [ids["builderA"], ids["builderB"]]
+                    scn["gate_getters"] = gids["getters"]
+                    scn["gate_builders"] = gids.get("builders", [])
                     scn["schedule_from"] = {"variant": sc["variant"], "use": sc["use"], "violates_Once_in_the_model": sc["bad"]}
                     rc, out, tj, cj = run_scenario(drv, scn, work, "g", srng.choice([1, 4, 16]))
                     if rc != 0:
@@ -208,9 +225,9 @@ def check(tier):
                         gate_info["stutter"] += res.count("s") + res.count("l")
                         gate_info["adversarial"] += 1 if sc["bad"] else 0
                     jobs.append(("api", scn, ex.submit(vlib.validate_trace, work, tj)))
-                    idf = os.path.join(work.dir, "ids-%d.json" % scn["id"])
-                    open(idf, "w").write(json.dumps(ids) + "\n")
-                    if os.path.getsize(cj) > 0:
+                    if ids and os.path.getsize(cj) > 0:
+                        idf = os.path.join(work.dir, "ids-%d.json" % scn["id"])
+                        open(idf, "w").write(json.dumps(ids) + "\n")
                         once_n[0] += 1
                         jobs.append(("once", scn, ex.submit(vlib.tlc, work, "TraceOnce", "TraceOnce.cfg", 1, 600,
                                                             {"VERIF_TRACE": cj, "VERIF_ONCE_IDS": idf}, "2g")))
